@@ -229,7 +229,7 @@ pub fn gen(rng: &mut Rng) -> Scn {
         rng.pick(&stacks()).clone()
     };
     let stack = if mode == 3 && !stack.iter().any(|l| l.has_listeners()) { vec![*rng.pick(&[L::Bulkhead, L::RateLimiter, L::CircuitBreaker, L::Retry, L::TimeLimiter, L::Cache, L::Fallback, L::Hedge, L::Chaos])] } else { stack };
-    let triggering = rng.chance(1, 3) && stack.iter().any(|l| matches!(l, L::Retry | L::Hedge | L::Reconnect));
+    let triggering = rng.chance(1, 3) && stack.iter().any(|l| matches!(l, L::Retry | L::Hedge | L::Reconnect | L::CircuitBreaker | L::CircuitBreakerFallback));
     let n = rng.range(1, 8) as usize;
     let sequential = stack.contains(&L::Coalesce) || stack.contains(&L::Cache) || rng.chance(1, 2);
     let mut t = 0u64;
@@ -282,7 +282,7 @@ pub fn valid(s: &Scn) -> bool {
         && s.reqs.len() <= 10
         && s.reqs.iter().all(|(t, sc)| *t <= 1000 && !sc.is_empty() && sc.len() <= 4 && sc.iter().all(|b| b.lat_ms <= 20 && b.yields <= 3 && matches!(b.out, Outcome::Ok | Outcome::Err(0) | Outcome::Err(1))))
         && (s.triggering || s.reqs.iter().all(|(_, sc)| sc.len() == 1))
-        && (!s.triggering || s.stack.iter().any(|l| matches!(l, L::Retry | L::Hedge | L::Reconnect)))
+        && (!s.triggering || s.stack.iter().any(|l| matches!(l, L::Retry | L::Hedge | L::Reconnect | L::CircuitBreaker | L::CircuitBreakerFallback)))
         && s.clone_warmup_ms <= 50
         && (s.mode == 0 || (s.clone_warmup_ms == 0 && !s.primed_template))
         && s.ready_script.len() <= 8
@@ -349,8 +349,14 @@ fn wrap(kind: L, pos: i64, trig: bool, pressure: bool, zero_backoff: bool, alt: 
         }
         L::CircuitBreaker | L::CircuitBreakerFallback => {
             use tower_resilience_circuitbreaker::{CircuitBreakerError, CircuitBreakerLayer};
-            let mut b = CircuitBreakerLayer::builder().sliding_window_size(1000).minimum_number_of_calls(1000).failure_rate_threshold(1.0);
-            if alt {
+            let mut b = if trig {
+                // opens at the first failure, probes again 5ms later: the trial call, too, must go
+                // to an instance that was seen ready
+                CircuitBreakerLayer::builder().sliding_window_size(1).minimum_number_of_calls(1).failure_rate_threshold(1.0).wait_duration_in_open(Duration::from_millis(5)).permitted_calls_in_half_open(1)
+            } else {
+                CircuitBreakerLayer::builder().sliding_window_size(1000).minimum_number_of_calls(1000).failure_rate_threshold(1.0)
+            };
+            if alt && !trig {
                 b = b.wait_duration_in_open(Duration::MAX);
             }
             if want_l {
